@@ -36,6 +36,7 @@ Definition dec_op (s : sx) : option (op E) :=
   | SList [SInt 7; SInt i; v] => match dec_elem v with Some a => Some (SetAt i a) | None => None end
   | SList [SInt 8] => Some Clear
   | SList [SInt 9; SInt n] => Some (Rotate n)
+  | SList [SInt 10; SInt e] => Some (SetMinCap e)
   | _ => None
   end.
 
@@ -66,21 +67,38 @@ Definition out_eqb (a b : out E) : bool :=
 
 Definition is_pow2 (c : Z) : bool := (0 <? c) && (Z.land c (c - 1) =? 0).
 
+(* the minimum in force after SetMinCapacity(e) (the property's "configured minimum") *)
+Definition min_after (e : Z) : Z :=
+  let v := shl1 e in if v >? 16 then v else 16.
+
+(* the capacity sentence on the implementation's own Cap()/Len(), with the minimum currently
+   configured [minc] and the capacity before the call [pcap]:
+   always: Cap = 0 or a power of two >= 16 and >= Len;
+   a call other than SetMinCapacity: allocates at >= minc, never shrinks below minc, keeps
+   Cap >= minc once it holds;  SetMinCapacity: Cap unchanged *)
+Definition cap_ok (is_set : bool) (minc pcap cap len : Z) : bool :=
+  ((cap =? 0) || (is_pow2 cap && (16 <=? cap) && (len <=? cap))) &&
+  (if is_set then cap =? pcap
+   else ((negb (pcap =? 0)) || (cap =? 0) || (minc <=? cap)) &&
+        ((pcap <=? cap) || (minc <=? cap)) &&
+        (negb ((pcap =? 0) || (minc <=? pcap)) || (cap =? 0) || (minc <=? cap))).
+
 (* walk the history: spec step vs observation (property codes 1..3) at every call; model
    step vs observation (mismatch codes 1..3) until the first mismatch, which is remembered
    in [first] while the walk goes on looking for a property failure (live = false: the
    model is no longer compared) *)
-Fixpoint deque_walk (first : verdict) (live : bool) (d : deque) (l : list E) (minc : Z)
+Fixpoint deque_walk (first : verdict) (live : bool) (d : deque) (l : list E) (minc pcap : Z)
          (ops : list (op E)) (rs : list dres) : verdict * bool * deque :=
   match ops, rs with
   | [], [] => (first, live, d)
   | o :: ops', r :: rs' =>
       let '(l1, so) := spec_step l o in
+      let is_set := match o with SetMinCap _ => true | _ => false end in
+      let minc1 := match o with SetMinCap e => min_after e | _ => minc end in
       let prop :=
         vjoin (check_that (out_eqb so (r_out r)) (VPropFail (match so with OPanic => 2 | _ => 1 end)))
        (vjoin (check_that (zlen l1 =? r_len r) (VPropFail 1))
-              (check_that ((r_cap r =? 0) || (is_pow2 (r_cap r) && (minc <=? r_cap r) && (r_len r <=? r_cap r)))
-                          (VPropFail 3))) in
+              (check_that (cap_ok is_set minc pcap (r_cap r) (r_len r)) (VPropFail 3))) in
       match prop with
       | VOk =>
           if live then
@@ -90,10 +108,10 @@ Fixpoint deque_walk (first : verdict) (live : bool) (d : deque) (l : list E) (mi
              (vjoin (check_that ((count d1 =? r_len r) && (cap d1 =? r_cap r)) (VMismatch 2))
                     (check_that ((head d1 =? r_head r) && (tail d1 =? r_tail r)) (VMismatch 3))) in
             match corr with
-            | VOk => deque_walk first true d1 l1 minc ops' rs'
-            | v => deque_walk v false d1 l1 minc ops' rs'
+            | VOk => deque_walk first true d1 l1 minc1 (r_cap r) ops' rs'
+            | v => deque_walk v false d1 l1 minc1 (r_cap r) ops' rs'
             end
-          else deque_walk first false d l1 minc ops' rs'
+          else deque_walk first false d l1 minc1 (r_cap r) ops' rs'
       | v => (v, live, d)
       end
   | _, _ => (VBad, live, d)
@@ -113,7 +131,7 @@ Definition check_deque (ctor : list sx) (ops : list sx) (rs : list sx) (minc : Z
           (* the minimum capacity the property speaks about: the configured one (16 when
              none was configured) *)
           let minc_cfg := if minCap d0 =? 0 then 16 else minCap d0 in
-          match deque_walk VOk true d0 [] minc_cfg ops rs with
+          match deque_walk VOk true d0 [] minc_cfg (cap d0) ops rs with
           | (VOk, true, dn) =>
               vjoin (check_that (list_eqb e_eqb (buf dn) bufv) (VMismatch 4))
                     (check_that (minCap dn =? minc) (VMismatch 5))
